@@ -5,6 +5,8 @@ import os
 
 CAT = {e["id"]: e for e in json.load(open(os.path.join(os.path.dirname(__file__), "clause_catalog.json")))}
 COMMON_KEYS = ["partitioned_by", "tablespace", "comment", "partition_by"]
+MF = json.load(open(os.path.join(os.path.dirname(__file__), "mode_fields.json")))
+MODES = MF["modes"]
 
 # bodies: id -> (column list DDL, expected projection of the body)
 BODIES = {
@@ -31,7 +33,9 @@ def tla_consts(ids, bodies, **kw):
         Clause_=sset(ids),
         DialectOf=fn(lambda e: f'"{e["dialect"]}"'),
         KeysOf=fn(lambda e: sset({key_name(k) for k in e["own"]} | {key_name(k) for k in e["sql"]})),
-        TopIn=fn(lambda e: sset({key_name(k) for k in e["own"] if k.startswith("top.")})),
+        ModesOfKey="[" + ", ".join(f"{k} |-> {sset(MF['modes_of'].get(k, []))}" for k in sorted({key_name(x) for c in ids for x in list(CAT[c]["own"]) + list(CAT[c]["sql"])})) + "]",
+        DeclaredIn="[" + ", ".join(f"{k} |-> {sset(MF['declared_in'].get(k, []))}" for k in sorted({key_name(x) for c in ids for x in list(CAT[c]["own"]) + list(CAT[c]["sql"])})) + "]",
+        ShowModes='{"sql"}',
         CommonKeys=sset(COMMON_KEYS), FirstOnly=sset({"organization_index"} & set(ids)),
         Bodies=sset(bodies), MaxClauses=2, Variant='"shipped"', WithHist="FALSE")
     d.update(kw)
